@@ -10,8 +10,11 @@ K  translator harness/translators/adf_lex.py re-reads every regular expression, 
    is parsed by the real parse_adf*, installed with install_adf* into a temporary repository and read back with get_*.
 S  direct oracle, no model: what the real parser / repository returns must equal the generated tables after the
    documented conversions; wrong element header / absent block must raise; install_files(configuration dict with every key)
-   must put each file into its own repository family and leave the others empty.
+   must put each file into its own repository family and leave the others empty; for every installer and install_files the
+   copy of the file that the documented lookup order designates (adas_path tree, then — with download — the cache) is the
+   one installed; the network is stubbed and must only be reached when the file is nowhere and download=True.
 """
+import copy
 import json
 import math
 import os
@@ -765,6 +768,7 @@ def gen_15(ctx, rng, absent=False, modes=None):
         want[CLS15[b['typ']]][tr] = {'ne': ('pcm3', b['ne']), 'te': ('id', b['te']), 'rate': ('cm3', b['rate'])}
         want['wavelength'][tr] = {'wl': ('ang', b['wl_idx'])}
     return dict(fmt='15', kind=mode + (':absent' if absent else ''), line=line, element=element, charge=charge, hf=hf, fname=fname, want=want,
+                first=(CLS15[blocks[0]['typ']], (lev(blocks[0]['up']), lev(blocks[0]['lo']))),
                 absent=absent, sizes=(nblocks, tuple((len(b['ne']), len(b['te'])) for b in blocks[:3]), mode),
                 counts=tuple(n_ for b in blocks for n_ in (len(b['ne']), len(b['te']))),
                 desc=dict(format='adf15', mode=mode, element=element.symbol, charge=charge, header_format=hf, file_name=fname,
@@ -1094,6 +1098,197 @@ def run_bundle(ctx, w, b, texts, model_dispatch):
     return fails, disagree
 
 
+# ------------------------------------------------------------------------------------------------ which copy of the file is parsed
+class NetworkReached(Exception):
+    pass
+
+
+class NetStub:
+    """stands in for urllib.request.urlretrieve during the whole run: the check never touches the network"""
+
+    def __init__(self):
+        self.calls = []
+        self.allow = False          # set only around a call whose documented outcome is a download
+        self.unexpected = []
+
+    def __call__(self, url, target=None, *a, **k):
+        self.calls.append((url, target))
+        if not self.allow:
+            self.unexpected.append((url, target))
+        raise NetworkReached('attempt to download %s' % url)
+
+
+def designated(download, adas_given, in_adas, in_cache):
+    """the documented lookup order (install_* docstrings: `adas_path` = where the ADAS files are; `download` = attempt to
+    download the file *if not present*): the caller's tree first, then — only with download — the download cache, then the network"""
+    if adas_given and in_adas:
+        return 'adas'
+    if download:
+        return 'cache' if in_cache else 'network'
+    return 'none'
+
+
+def decoy(c):
+    """a second well-formed file for the same call: one data token changed; returns the case that describes it"""
+    b = copy.copy(c)
+    t = c['line'].split(' ')
+    if c['fmt'] == '2x':
+        new = e3(tokf(t[10]) * 0.5)
+        t[10] = new
+        st = dict(c['struct'])
+        st['e'] = (st['e'][0], [new] + list(st['e'][1][1:]))
+        b['struct'] = st
+    elif c['fmt'] == '12':
+        new = d2(tokf(t[6]) * 0.5)
+        t[6] = new
+        tr, st, sz = c['blocks'][0]
+        st = dict(st)
+        st['qref'] = (st['qref'][0], new)
+        b['blocks'] = [(tr, st, sz)] + list(c['blocks'][1:])
+    elif c['fmt'] == '11':
+        new = f5(tokf(t[-1]) - 1.0)
+        t[-1] = new
+        rates = copy.deepcopy(c['rates'])
+        rates[-1][-1][-1] = new
+        b['rates'] = rates
+    else:
+        new = e2(tokf(t[12]) * 0.5)
+        t[12] = new
+        want = copy.deepcopy(c['want'])
+        cls, tr = c['first']
+        tag, ne = want[cls][tr]['ne']
+        want[cls][tr]['ne'] = (tag, [new] + list(ne[1:]))
+        b['want'] = want
+    b['line'] = ' '.join(t)
+    return b
+
+
+def installer_name(c):
+    if c['fmt'] == '11':
+        return CLS11[c['cls']][0]
+    if c['fmt'] == '2x':
+        return {'adf21': 'install_adf21', 'bmp': 'install_adf22bmp', 'bme': 'install_adf22bme'}[c['kind']]
+    return 'install_adf' + c['fmt']
+
+
+# (name, download, adas_path given, copy in the ADAS tree, copy in <repository>/_download_cache)     A = the file, B = the decoy
+LOC_SCENARIOS = [
+    ('local-file-vs-stale-cache:download', True, True, 'A', 'B'),
+    ('local-file-vs-stale-cache:no-download', False, True, 'A', 'B'),
+    ('cache-only:download', True, True, None, 'A'),
+    ('cache-only:download:no-adas-path', True, False, 'B', 'A'),
+    ('cache-only:no-download', False, True, None, 'A'),
+    ('no-adas-path:no-download', False, False, 'A', 'A'),
+    ('nowhere:download', True, True, None, None),
+    ('nowhere:no-download', False, True, None, None),
+]
+
+
+def gen_locate_round(ctx, rng):
+    """one case of every front-end"""
+    from cherab.core.atomic import carbon, neon, argon
+    cases = [gen_11(ctx, rng, force=(cls, rng.choice([carbon, neon, argon]))) for cls in sorted(CLS11)]
+    cases += [gen_12(ctx, rng), gen_15(ctx, rng, modes=['hydrogen', 'hydrogen-like', 'full', 'full-nodot', 'bnd']),
+              gen_2x(ctx, rng, kind='adf21'), gen_2x(ctx, rng, kind='bmp'), gen_2x(ctx, rng, kind='bme')]
+    return [(c, decoy(c)) for c in cases]
+
+
+def run_locate(ctx, w, stub, cA, textA, cB, textB):
+    """every lookup scenario × {direct installer, install_files}: the repository must hold the tables of the copy that the
+    documented order designates, a missing file must raise ValueError, and only 'nowhere + download' may reach the network"""
+    from cherab.openadas import install as I, repository as R
+    name = installer_name(cA)
+    rel = cA.get('fname') or 'adf%s/located_%s.dat' % (cA['fmt'], name)
+    content = {'A': (textA, cA), 'B': (textB, cB)}
+    fails = []
+    for via in ('direct', 'install_files'):
+        for sname, download, adas_given, in_adas, in_cache in LOC_SCENARIOS:
+            w.fresh_repo()
+            adas = tempfile.mkdtemp(prefix='adas_', dir=w.root)
+            for which, base in ((in_adas, adas), (in_cache, os.path.join(w.repo, '_download_cache'))):
+                if which:
+                    fp = os.path.join(base, rel)
+                    os.makedirs(os.path.dirname(fp), exist_ok=True)
+                    with open(fp, 'w') as f:
+                        f.write(content[which][0])
+            want = designated(download, adas_given, in_adas is not None, in_cache is not None)
+            src = {'adas': in_adas, 'cache': in_cache}.get(want)
+            n0 = len(stub.calls)
+            kw = dict(download=download, repository_path=w.repo, adas_path=adas if adas_given else None)
+            stub.allow = want == 'network'
+            if via == 'direct':
+                st, e = quiet(getattr(I, name), *install_args(cA, rel), **kw)
+            else:
+                st, e = quiet(I.install_files, {config_key(cA): [install_args(cA, rel)]}, **kw)
+            stub.allow = False
+            reached = len(stub.calls) - n0
+            sig = 'C08:locate:%s:%s:%s' % (name if via == 'direct' else 'install_files[%s]' % config_key(cA), sname, '%s')
+            desc = '%s via %s, scenario %s (download=%s, adas_path %s, ADAS tree holds %s, download cache holds %s): ' % (
+                name, via, sname, download, 'given' if adas_given else 'omitted', in_adas, in_cache)
+            ctx.count('locate:%s:%s' % (via, want))
+            if want in ('adas', 'cache'):
+                other = 'B' if src == 'A' else 'A'
+                d = 'raised %s: %s' % (st, e) if st != 'ok' else readback(R, content[src][1], w.repo)
+                if reached:
+                    fails.append((sig % 'network-reached', desc + 'tried to download although the file is present'))
+                elif d:
+                    stale = st == 'ok' and readback(R, content[other][1], w.repo) is None
+                    fails.append((sig % ('other-copy-installed' if stale else sigcat(d)),
+                                  desc + ('the repository holds the tables of the %s copy, not of the designated %s copy' % (
+                                      'cache' if want == 'adas' else 'ADAS-tree', want) if stale else 'read-back of the designated copy: %s' % d)))
+            elif want == 'none':
+                if st != 'ValueError':
+                    fails.append((sig % ('missing-file-' + st), desc + 'a file that is nowhere to be found must raise ValueError, got %s' % st))
+                elif reached:
+                    fails.append((sig % 'network-reached', desc + 'download attempted with download=False'))
+                elif readback(R, cA, w.repo) is None:
+                    fails.append((sig % 'installed-anyway', desc + 'raised ValueError but the tables are in the repository'))
+            else:
+                if not reached or st == 'ok':
+                    fails.append((sig % 'no-download-attempt', desc + 'expected a download attempt (stubbed, fails loudly); status %s, %d attempts' % (st, reached)))
+            shutil.rmtree(adas, ignore_errors=True)
+    return fails
+
+
+def locate_table(ctx, w, stub):
+    """K, exhaustive: _locate_adas_file on all 16 combinations of (download, adas_path given, file in ADAS tree, file in cache)
+    against the Lean function locateAdasFile"""
+    from cherab.openadas import install as I
+    combos = [(d, a, ia, ic) for d in (0, 1) for a in (0, 1) for ia in (0, 1) for ic in (0, 1)]
+    model = ctx.driver(['locate %d %d %d %d' % cmb for cmb in combos])
+    rel = 'adf21/x#y/probe.dat'
+    for (d, a, ia, ic), m in zip(combos, model):
+        w.fresh_repo()
+        adas = tempfile.mkdtemp(prefix='adas_', dir=w.root)
+        pa, pc = os.path.join(adas, rel), os.path.join(w.repo, '_download_cache', rel)
+        for flag, fp in ((ia, pa), (ic, pc)):
+            if flag:
+                os.makedirs(os.path.dirname(fp), exist_ok=True)
+                open(fp, 'w').write('x')
+        n0 = len(stub.calls)
+        stub.allow = designated(bool(d), bool(a), bool(ia), bool(ic)) == 'network'
+        st, out = quiet(I._locate_adas_file, rel, bool(d), adas if a else None, w.repo)
+        stub.allow = False
+        if len(stub.calls) > n0:
+            got = 'network'
+        elif st != 'ok':
+            got = 'raised-' + st
+        else:
+            got = 'none' if out is None else ('adas' if out == pa else ('cache' if out == pc else 'other:' + str(out)))
+        ctx.case(key=('locate', d, a, ia, ic))
+        ctx.traces += 1
+        want = designated(bool(d), bool(a), bool(ia), bool(ic))
+        if got != m:
+            ctx.disagreements += 1
+            ctx.broke('correspondence', 'C08 _locate_adas_file table', dict(download=d, adas_given=a, in_adas=ia, in_cache=ic, model=m, implementation=got))
+        if got != want:
+            ctx.fail('C08:locate:_locate_adas_file:%s-instead-of-%s' % (got, want),
+                     '_locate_adas_file(download=%s, adas_path %s; file in ADAS tree: %s, in download cache: %s) chose %s, documented order designates %s'
+                     % (bool(d), 'given' if a else 'omitted', bool(ia), bool(ic), got, want), dict(download=d, adas_given=a, in_adas=ia, in_cache=ic))
+        shutil.rmtree(adas, ignore_errors=True)
+    ctx.extra['locate_table_exhaustive'] = True
+
+
 def check_tags(ctx):
     """the model's conversion / charge tables against the tables this module uses for its own oracle"""
     out = ctx.driver(['tags'])[0]
@@ -1141,11 +1336,37 @@ def _streams(ctx, w):
         cases.append(gen_15(ctx, rng, absent=(i % 10 == 9)))
     bundles = [gen_bundle(ctx, rng, i) for i in range(ctx.n(8, 120))]
     bcases = [c for b in bundles for _, c in b['cases']]
+    lpairs = [p for _ in range(ctx.n(1, 12)) for p in gen_locate_round(ctx, rng)]
+    lcases = [c for p in lpairs for c in p]
     w.fresh_repo()
-    outs_all = ctx.driver([c['line'] for c in cases + bcases])
-    outs, bouts = outs_all[:len(cases)], outs_all[len(cases):]
+    outs_all = ctx.driver([c['line'] for c in cases + bcases + lcases])
+    outs, bouts, louts = outs_all[:len(cases)], outs_all[len(cases):len(cases) + len(bcases)], outs_all[len(cases) + len(bcases):]
     ctx.traces = 0
-    _bundles(ctx, w, bundles, bouts)
+    import urllib.request
+    stub, real = NetStub(), urllib.request.urlretrieve
+    urllib.request.urlretrieve = stub
+    try:
+        locate_table(ctx, w, stub)
+        for k, (cA, cB) in enumerate(lpairs):
+            tA, tB = (o.split('#')[0].replace('|', '\n') + '\n' for o in louts[2 * k:2 * k + 2])
+            fails = run_locate(ctx, w, stub, cA, tA, cB, tB)
+            ctx.case(key=('locate-stream', installer_name(cA), cA['sizes']),
+                     sample=dict(case=cA['desc'], scenarios=[x[0] for x in LOC_SCENARIOS]) if k == 0 else None)
+            ctx.traces += 1
+            for sig, why in fails:
+                ctx.fail(sig, why, dict(case=cA['desc'], file=tA, decoy=tB))
+        _bundles(ctx, w, bundles, bouts)
+        _cases(ctx, w, cases, outs)
+    finally:
+        urllib.request.urlretrieve = real
+    if stub.unexpected:
+        ctx.fail('C08:network-reached', 'the code under test tried to download although the file was present or download was off: %r'
+                 % (stub.unexpected[:2],), dict(calls=stub.unexpected[:5]))
+    ctx.count('network-attempts-stubbed', len(stub.calls))
+
+
+def _cases(ctx, w, cases, outs):
+    rng = ctx.rng
     seen_fmt = set()
     for c, o in zip(cases, outs):
         parts = o.split('#')
